@@ -18,10 +18,13 @@ Alphabet(i) ==
     \cup {Line("field", k, IF k \in NumKeys THEN "7" ELSE Tok[i], <<>>) : k \in WalkKeys}
     \cup {Line("field", "counter", Tok[i], <<>>),               \* plain counter
           Line("field", "counter", Tok[i], <<Bk[i]>>),          \* prefix{b} on one line
-          Line("copen", "counter", Tok[i], <<>>),               \* counter:prefix{
-          Line("copen", "counter", Tok[i], <<Bk[i]>>),          \* counter:prefix{b,
-          Line("cmid", "", "", <<Bk[i]>>),                      \* b,
-          Line("cclose", "", "", <<Bk[i]>>)}                    \* b}
+          Line("copen", "counter", Tok[i], <<>>),                          \* counter:prefix{
+          LineC("copen", "counter", Tok[i], <<Bk[i]>>, FALSE, TRUE),       \* counter:prefix{b,
+          LineC("copen", "counter", Tok[i], <<Bk[i]>>, FALSE, FALSE),      \* counter:prefix{b
+          Line("cclose", "", "", <<>>),                                    \* }
+          LineC("cclose", "", "", <<Bk[i]>>, FALSE, FALSE),                \* b}
+          LineC("cclose", "", "", <<Bk[i]>>, TRUE, FALSE)}                 \* ,b}
+    \cup {LineC("cmid", "", "", <<Bk[i]>>, ld, tr) : ld, tr \in BOOLEAN}   \* [,]b[,]
 
 VARIABLES lines, res
 vars == <<lines, res>>
